@@ -43,5 +43,5 @@ MANIFEST = {
     "engine": "sched",
     "technique": "property-based testing with controlled schedules: generated DAGs with sequential nodes of every resource, interval-overlap predicate over the event trace",
     "level_text": "Exploration of shapes x sequential subsets x resources x completion orders; controlled schedules hold any wrongly co-dispatched node inside its function so the overlap is observed deterministically; small cases enumerate every completion order.",
-    "level_note": "Trusted: the event trace (one lock, global sequence numbers) and the gates.",
+    "level_note": "Thorough tier additionally enumerates a complete small scope (every DAG on 4 ordered nodes x the property's own dimension - priorities / sequential subsets / failing node - with the whole completion-order tree of each). Trusted: the event trace (one lock, global sequence numbers) and the gates.",
 }
